@@ -2,7 +2,8 @@
 
    A mem_hdr is a splay tree (include/splay.h = SplayModel.v) of mem_nodes keyed
    by mem_hdr::NodeCompare, plus the counter Splay::elements and inmem_hi.
-   A mem_node is (nodeBuffer.offset, the nodeBuffer.length bytes stored in data[]).
+   A mem_node is (nodeBuffer.offset, nodeBuffer.length, the bytes deposited in data[]);
+   the list holds exactly the first nodeBuffer.length bytes of data[] (invariant).
 
    Pointers: the C++ code holds mem_node pointers while the tree is re-shaped
    (nodeToRecieve returns one, writeAvailable appends to it in place). Here a
@@ -22,12 +23,12 @@
 Require Import SquidV.Bytes SquidV.SplayModel SquidV.gen.Memhdr_gen.
 Local Open Scope Z_scope.
 
-Record node : Type := mkNode { n_off : Z; n_data : bytes }.
+Record node : Type := mkNode { n_off : Z; n_length : N; n_data : bytes }.
 
-Definition n_len (n : node) : Z := Z.of_N (lenN (n_data n)).          (* nodeBuffer.length *)
+Definition n_len (n : node) : Z := Z.of_N (n_length n).               (* (int64_t)nodeBuffer.length *)
 Definition n_end (n : node) : Z := n_off n + n_len n.                 (* mem_node::end() *)
 (* mem_node::space(): SM_PAGE_SIZE - nodeBuffer.length (size_t; length <= SM_PAGE_SIZE is invariant) *)
-Definition n_space (n : node) : N := (sm_page_size - lenN (n_data n))%N.
+Definition n_space (n : node) : N := (sm_page_size - n_length n)%N.
 (* mem_node::canAccept *)
 Definition canAccept (n : node) (location : Z) : bool :=
   (location =? n_end n) && (0 <? n_space n)%N.
@@ -111,7 +112,7 @@ Definition appendNode (h : mem_hdr) (v : node) : mem_hdr * bool :=
 Definition nodeToRecieve (h : mem_hdr) (offset : Z) : res (mem_hdr * node) :=
   if (h_count h =? 0)%N then
     (* case 1: nothing in memory *)
-    let '(h1, _) := appendNode h (mkNode offset []) in
+    let '(h1, _) := appendNode h (mkNode offset 0%N []) in
     match leftmost (h_nodes h1) with
     | Some n => Ok (h1, n)                    (* nodes.start()->data *)
     | None => Stuck                           (* null dereference; unreachable *)
@@ -123,7 +124,7 @@ Definition nodeToRecieve (h : mem_hdr) (offset : Z) : res (mem_hdr * node) :=
       else (h_nodes h, None) in
     let h1 := with_nodes h t1 in
     let fresh :=
-      let v := mkNode offset [] in
+      let v := mkNode offset 0%N [] in
       let '(h2, inserted) := appendNode h1 v in
       if inserted then Ok (h2, v) else Stuck  (* a never-stored node would be written to; unreachable *) in
     match candidate with
@@ -137,7 +138,8 @@ Definition writeAvailable (h : mem_hdr) (aNode : node) (location : Z) (source : 
   else if negb (canAccept aNode location) then AssertFail
   else
     let copyLen := N.min (lenN source) (n_space aNode) in
-    let aNode' := mkNode (n_off aNode) (n_data aNode ++ takeN copyLen source) in
+    (* memcpy(data + length, source, copyLen); nodeBuffer.length += copyLen *)
+    let aNode' := mkNode (n_off aNode) (n_length aNode + copyLen)%N (n_data aNode ++ takeN copyLen source) in
     let hi' := if h_hi h <=? location then location + Z.of_N copyLen else h_hi h in
     Ok (mkHdr (set_node aNode' (h_nodes h)) hi' (h_count h), copyLen).
 
@@ -183,7 +185,7 @@ Definition copyAvailable (aNode : node) (location : Z) (amount : N) : res bytes 
   else if negb (n_end aNode >? location) then AssertFail
   else
     let copyOffset := Z.to_N (location - n_off aNode) in
-    let copyLen := N.min amount (lenN (n_data aNode) - copyOffset)%N in
+    let copyLen := N.min amount (n_length aNode - copyOffset)%N in
     Ok (takeN copyLen (dropN copyOffset (n_data aNode))).
 
 (* the loop of mem_hdr::copy; every iteration but the last moves to a later node *)
